@@ -48,9 +48,9 @@ Definition telemetry_inc (v : verbosity) (tag : option string) (t : tstate) : ts
 Definition update_status (v : verbosity) (st : status) (tag : option string) (t : tstate) : tstate :=
   if status_eqb (t_status t) Cancelled then t
   else
-    let t1 := if status_eqb st NotModified then t
-              else {| t_status := st; t_msg := t_msg t; t_count := t_count t; t_tags := t_tags t |} in
-    if status_eqb (t_status t1) Modified then telemetry_inc v tag t1 else t1.
+    let t1 := if status_eqb st Modified then telemetry_inc v tag t else t in
+    if status_eqb st NotModified then t1
+    else {| t_status := st; t_msg := t_msg t1; t_count := t_count t1; t_tags := t_tags t1 |}.
 
 (** ** DefaultIdentProvider *)
 Record pstate := {
@@ -766,16 +766,6 @@ Fixpoint op_visit (c : config) (fuel : nat) (root : bool) (n : node) (s : ostate
       match n with
       | Node (K KBlock _ _) _ => Some (n, s)              (* visit_mut_block_stmt: nested blocks are skipped *)
       | Node (K KIdent _ _) _ => Some (n, o_with_p (register_variable c n (o_p s)) s)
-      | Node (K KIf lo hi) [test; cns; alt] =>
-          (* visit_mut_if_stmt: children of test, then cons; alt is not visited *)
-          match struct_level root test s with
-          | Some (test', s1) =>
-              match op_visit c f root cns s1 with
-              | Some (cns', s2) => Some (Node (K KIf lo hi) [test'; cns'; alt], s2)
-              | None => None
-              end
-          | None => None
-          end
       | Node (K KBin _ _) _ =>
           if plus_enabled c then
             match default_visit false n s with
@@ -850,7 +840,7 @@ Fixpoint op_visit (c : config) (fuel : nat) (root : bool) (n : node) (s : ostate
           match optchain_transform c f n (o_p s) with
           | Some (n1, modified, p1) =>
               let s1 := o_with_p p1 s in
-              let s2 := if modified then o_update c Modified None s1 else s1 in
+              let s2 := s1 in   (* the guard alone does not update the status *)
               (* expr.visit_mut_children_with: the struct behind the (possibly new) expression *)
               match struct_level false n1 s2 with
               | Some (n2, s3) => Some (n2, o_leave root s3)
@@ -869,16 +859,17 @@ Fixpoint op_visit (c : config) (fuel : nat) (root : bool) (n : node) (s : ostate
   end.
 
 (** ** BlockTransformVisitor *)
-Definition is_use_strict (stmt : node) : bool :=
+(** [Stmt::can_precede_directive]: an expression statement that is a bare string literal. *)
+Definition can_precede_directive (stmt : node) : bool :=
   match stmt with
-  | Node (K KExprStmt _ _) [Node (K KStr _ _) [_; Node (Str raw) []]] =>
-      String.eqb raw """use strict""" || String.eqb raw "'use strict'"
+  | Node (K KExprStmt _ _) [Node (K KStr _ _) _] => true
   | _ => false
   end.
 
-Definition insertion_index (stmts : list node) : nat :=
+(** [get_variable_insertion_index]: the length of the directive prologue. *)
+Fixpoint insertion_index (stmts : list node) : nat :=
   match stmts with
-  | s0 :: _ => if is_use_strict s0 then 1 else 0
+  | s0 :: rest => if can_precede_directive s0 then Datatypes.S (insertion_index rest) else 0
   | [] => 0
   end.
 
